@@ -53,6 +53,15 @@ def c12(chk):
         count_cases(chk, summ, lambda r: ((r["ev"], r.get("stage"), r.get("nonce"), r.get("call")))
                     if r["ev"] in ("rpc.drop", "app.drop", "srv.drop") else None)
     sample_events(chk, summ, ("rpc.drop", "obs.rpc_abandon", "app.drop"), n=4)
+    # abandonment by timing out: the caller's own deadline (header / configured default) ends the call;
+    # other calls on the connection, in flight or later, are not disturbed
+    st = rpc_runs(chk, "timedout", mode="timeouts", faults=0, calls=60, seed=chk.seed + 5, runs=max(4, runs // 3),
+                  jobs=12, files=4)
+    count_cases(chk, st, lambda r: ("tmo.fire", r.get("dir")) if r["ev"] == "tmo.fire" else None)
+    # generated servers: dropping a request's future takes the user's handler with it
+    cg = vlib.harness("codegen-cancel")
+    from props import replay_check
+    replay_check(chk, "codegen-cancel", cg)
     spec_mutant(chk, "no_stop_watch", "AnemoRpc.tla", "MC_Rpc_nolose.cfg",
                 [("AnemoRpc.tla", "          \\/ Refuse(q) \\/ StopSeen(q) \\/ Respond(q)", "          \\/ Refuse(q) \\/ Respond(q)")], workers=4)
 
